@@ -29,7 +29,7 @@ LEAVES = [
     ("Shutdown", "wait_for_start_raises_after", "_core.py", "Zeroconf.async_wait_for_start", ("if", "running_event.is_set()", 0),
      [P("self.engine.running_event.is_set()", "is_set", "bool"), P("self.done", "done", "bool")], "bool", {}),
     # ---- what the close path cancels / closes / leaves alone (statement-level facts, as boolean constants)
-    ("Shutdown", "engine_close_cancels_cleanup", "_engine.py", "AsyncEngine._async_close", ("has_call", "_cleanup_timer.cancel"), [], "bool", {}),
+    ("Shutdown", "engine_close_cancels_cleanup", "_engine.py", "AsyncEngine._async_close", ("has_call", "self._cleanup_timer.cancel"), [], "bool", {}),
     ("Shutdown", "shutdown_closes_transports", "_engine.py", "AsyncEngine._async_shutdown", ("has_call", "transport.close"), [], "bool", {}),
     ("Shutdown", "shutdown_aborts_transports", "_engine.py", "AsyncEngine._async_shutdown", ("has_call", "transport.abort"), [], "bool", {}),
     ("Shutdown", "close_cancels_tracked_browsers", "asyncio.py", "AsyncZeroconf.async_close", ("has_call", "async_remove_all_service_listeners"), [], "bool", {}),
